@@ -36,6 +36,7 @@ def _big_fixed_geo(draw, big):
 def strategy(tier):
   big = 6 if tier == 'quick' else 8
   return st.one_of(_big_fixed_geo(big),
+                   G.search_spec(max_geos=big, min_geos=4, constraint_p=0.2, elig_style='mixed').map(G.shared_capped),
                    G.search_spec(max_geos=big, min_geos=2, constraint_p=0.4, flat=True),
                    G.search_spec(max_geos=big, min_geos=3, constraint_p=0.2, elig_style='fixed-heavy', flat=True),
                    G.search_spec(max_geos=big, min_geos=3, constraint_p=0.25, elig_style='mixed'),
